@@ -54,6 +54,8 @@ type Result struct {
 	Streams     int           `json:"streams"`
 	SchedHash   string        `json:"sched_hash"`
 	Switches    int           `json:"switches"`
+	SyncPoints  int           `json:"sync_points"`
+	SyncYields  int           `json:"sync_yields"`
 	FakeNS      int64         `json:"fake_ns"`
 	WallMS      int64         `json:"wall_ms"`
 }
@@ -174,6 +176,7 @@ func runPhase(t *testing.T, sc *Scenario, tasks [][]Call, faults, trivial bool, 
 			st := simrt.NewStream(fmt.Sprintf("%s.client%d", phase, ti))
 			go func(mine []*CallRecord) {
 				defer cwg.Done()
+				defer simrt.Bind(st)()
 				for _, rec := range mine {
 					st.Yield()
 					func() {
@@ -280,6 +283,7 @@ func runScenario(t *testing.T, sc Scenario) Result {
 		last = e.s
 	}
 	res.SchedHash = hex.EncodeToString(h.Sum(nil)[:8])
+	res.SyncPoints, res.SyncYields = int(simrt.SyncPoints.Load()), int(simrt.SyncYields.Load())
 	simrt.Install(nil)
 	res.WallMS = time.Since(t0).Milliseconds()
 	return res
